@@ -17,6 +17,7 @@ pub static PANIC_COUNT: std::sync::atomic::AtomicUsize = std::sync::atomic::Atom
 pub fn install_panic_hook() {
     std::panic::set_hook(Box::new(|info| {
         let loc = info.location().map(|l| format!("{}:{}", l.file().rsplit("src/").next().unwrap_or(l.file()), l.line())).unwrap_or_default();
+        if std::env::var("AXV_PANIC_VERBOSE").is_ok() { eprintln!("PANIC {info}"); }
         *LAST_PANIC.lock().unwrap() = Some(loc);
         PANIC_COUNT.fetch_add(1, std::sync::atomic::Ordering::SeqCst);
     }));
